@@ -40,7 +40,7 @@ MODES = ['interp', 'largest', 'largest+smallest', 'all']
 
 def setup(tier, seed):
     # a package is distance dependent iff it tabulates several apertures (docs/creating_model_packages.rst)
-    cfgs = [dict(c, apdep=(c['n_ap'] > 1)) for c in deviation_bounded(AXES, 2 if tier == 'quick' else 4)]
+    cfgs = [dict(c, apdep=(c['n_ap'] > 1)) for c in deviation_bounded(AXES, 2 if tier == 'quick' else 5)]
     # whole-curve identity (every wavelength of the curve, not only the fitted ones) on packages with an exactly tied twin of the
     # best model, invalid cube rows before the selected models, and model names of 33 characters that share their first 31
     for n_ap in (1, 3):
@@ -56,7 +56,7 @@ def cases(ctx):
 
 
 def evidence_extra(ctx):
-    return {'bounds': 'deviation bound %d over %s; x n selected {1,3,5} x 4 display modes x {object, file}' % (2 if ctx['tier'] == 'quick' else 4, {k: len(v) for k, v in AXES.items()}),
+    return {'bounds': 'deviation bound %d over %s; x n selected {1,3,5} x 4 display modes x {object, file}' % (2 if ctx['tier'] == 'quick' else 5, {k: len(v) for k, v in AXES.items()}),
             'alphabet_digest': 'seed=%d' % ctx['seed']}
 
 
